@@ -10,9 +10,10 @@ Record sobs := mksobs {
   so_adverts : N; so_early_adverts : N
 }.
 (* offered: every piece is offered by at least one peer that follows the protocol and stays *)
-(* sole: the scenario has a piece whose only staying holder is one honest peer (generator's flag);
+(* sole: the scenario has a piece whose only staying holder is one honest peer (generator's flag), with how that peer
+   makes the piece known: 0 = in its bitfield, 1 = by a Have sent later, unchoking only when asked;
    have: the observed final statuses (true = Have) *)
-Inductive case := CSys (offered : bool) (sole : option N) (have : list bool) (o : option sobs).     (* o = None: the manager panicked *)
+Inductive case := CSys (offered : bool) (sole : option (N * N)) (have : list bool) (o : option sobs).     (* o = None: the manager panicked *)
 
 (* C01: whatever the peers did, only verified data the torrent lists is on disk, a piece counts as owned only
    with its file present, nothing is advertised before that; no panic *)
@@ -33,14 +34,16 @@ Definition o02 (c : case) : bool :=
       && (negb (so_all_have o) || match so_extracted_same o with Some true => true | _ => false end)
   end.
 Definition codes01 (cs : list case) : list N := map (fun c => if o01 c then 0 else 2) cs.
-(* known-finding class 1 of C02 (sole-holder-idle-after-reserver-left): at least eleven pieces (so that more than
-   ten were missing, no end-game), nothing crashed, and exactly the sole-holder's piece is what is still missing *)
+(* known-finding classes of C02: nothing crashed and exactly the sole-holder's piece is what is still missing, and
+   1 (sole-holder-idle-after-reserver-left): the holder advertised it in its bitfield and the torrent has at least
+     eleven pieces (more than ten were missing, no end-game);
+   2 (sole-holder-have-while-reserved): the holder announced it by Have and unchokes only when asked *)
 Definition class02 (c : case) : N :=
   match c with
-  | CSys _ (Some p) have (Some o) =>
-      if (11 <=? len have) && (so_task_panics o =? 0) && negb (so_manager_failed o)
+  | CSys _ (Some (p, how)) have (Some o) =>
+      if (so_task_panics o =? 0) && negb (so_manager_failed o)
          && list_eqb Bool.eqb have (map (fun i => negb (N.of_nat i =? p)) (seq 0 (length have)))
-      then 1 else 0
+      then (if how =? 1 then 2 else if 11 <=? len have then 1 else 0) else 0
   | _ => 0
   end.
 Definition codes02 (cs : list case) : list N := map (fun c => if o02 c then 0 else 2 + 4 * class02 c) cs.
